@@ -89,7 +89,8 @@ def main(tier, seed, replay=None, scale=1.0):
                 rep.sample({"cid": r["cid"], "image": r["image"], "corruption": r["descr"],
                             "fy_exit": r["rc1"], "fy_problem_codes": r["codes1"][:8], "fn_exit": r["rc2"]})
             if r["rc2"] != 0:
-                key = "C01 %s -> %s" % (r["cls"], ",".join(r["codes2"]) or "exit%s" % r["rc2"])
+                kinds = "+".join(sorted(set(k.split(".")[0] for k in r["cls"].split("+"))))
+                key = "C01 %s -> %s" % (kinds, ",".join(r["codes2"]) or "exit%s" % r["rc2"])
                 rep.violation(key, "e2fsck -fy exit %s then e2fsck -fn exit %s on %s cid %d: %s\n%s" %
                               (r["rc1"], r["rc2"], r["image"], r["cid"], r["descr"], r["out2"]),
                               replay={"cid": r["cid"], "image": r["image"], "descr": r["descr"],
